@@ -691,25 +691,25 @@ def call_target(facts, e):
     return None
 
 
-def inline(facts, e, depth=3, seen=()):
+def inline(facts, e, depth=3, seen=(), keep=()):
     """expression with calls to crate-local functions / closures replaced by their (parameter-substituted) return expression,
-    up to `depth` levels; recursion is cut"""
+    up to `depth` levels; recursion is cut; calls whose last path segment is in `keep` stay calls"""
     if depth <= 0 or not isinstance(e, tuple) or not e or not isinstance(e[0], str):
         return e
-    if e[0] == 'call':
+    if e[0] == 'call' and e[1].rsplit('::', 1)[-1] not in keep:
         ct = call_target(facts, e)
         if ct is not None and ct[0].key not in seen:
             body, actuals = ct
-            actuals = {k: inline(facts, v, depth, seen) for k, v in actuals.items()}
+            actuals = {k: inline(facts, v, depth, seen, keep) for k, v in actuals.items()}
             ret = body.expr_of_local(0)
             sub = substitute(ret, body.key, actuals)
-            return inline(facts, sub, depth - 1, seen + (body.key,))
+            return inline(facts, sub, depth - 1, seen + (body.key,), keep)
     out = []
     for x in e:
         if isinstance(x, tuple) and x and isinstance(x[0], str):
-            out.append(inline(facts, x, depth, seen))
+            out.append(inline(facts, x, depth, seen, keep))
         elif isinstance(x, tuple):
-            out.append(tuple(inline(facts, z, depth, seen) if isinstance(z, tuple) else z for z in x))
+            out.append(tuple(inline(facts, z, depth, seen, keep) if isinstance(z, tuple) else z for z in x))
         else:
             out.append(x)
     res = tuple(out)
